@@ -146,6 +146,15 @@ func cmdIter(args []string) {
 						if call == "N" {
 							if it.Next() {
 								res = append(res, int(binary.BigEndian.Uint32(it.Result().Key)))
+								// the consumer is the mutating goroutine: in every other
+								// word it overwrites two values after each item (the keys,
+								// hence the iterator's results, stay; the pinned version is
+								// now two or more versions behind: seeded C18-g)
+								if mode < 2 && wi%2 == 1 && n > 0 {
+									for m := 0; m < 2; m++ {
+										c.SetItem(&gkvlite.Item{Key: key(1 + (wi+m+len(res))%n), Val: []byte{byte(wi), byte(m)}, Priority: rng.Int31()})
+									}
+								}
 							} else {
 								res = append(res, 0)
 							}
